@@ -45,12 +45,16 @@ def check(run, P):
              "which remaps depends_on through the same id map", minimum=3)
     run.rule("C16.agree", "default-transition and initial-phase disagreement raise "
              "before a fused result is returned", minimum=2)
+    run.rule("C16.phases", "every phase of either method is in the result: the phase "
+             "loop ranges over the union of both phase maps, each side is looked up "
+             "in its own map, and a one-sided phase is returned as it is", minimum=5)
     run.rule("C16.order", "phases of the result are inserted in sorted order", minimum=1)
     _pred(run, P)
     _fields(run, P)
     _clash(run, P)
     _ids(run, P)
     _agree(run, P)
+    _phases(run, P)
 
 
 def _pred(run, P):
@@ -261,3 +265,107 @@ def _agree(run, P):
            construct=f"for phase_name in {norm(loops[0].iter) if loops else '?'}",
            why="the Python generator emits phases in dictionary order; a set order "
                "makes the generated text depend on the hash seed (C15)")
+
+
+def _resolve_local(fn, expr, depth=3):
+    """Follow single-assignment locals to their defining expression."""
+    while depth and isinstance(expr, ast.Name):
+        defs = [s_.value for s_ in ast.walk(fn) if isinstance(s_, ast.Assign)
+                and len(s_.targets) == 1 and isinstance(s_.targets[0], ast.Name)
+                and s_.targets[0].id == expr.id]
+        if len(defs) != 1:
+            return expr
+        expr = defs[0]
+        depth -= 1
+    return expr
+
+
+def _phases(run, P):
+    from ..engine.cfg import CFG
+    fd = P.func(f"{MOD}.fuse_two_dags")
+    fp = P.func(f"{MOD}.fuse_two_phases")
+    d1, d2 = fd.params[0], fd.params[1]
+    calls = [n for n in ast.walk(fd.node) if isinstance(n, ast.Call)
+             and dotted(n.func) == "fuse_two_phases"]
+    loops = [n for n in ast.walk(fd.node) if isinstance(n, ast.For)
+             and any(c in list(ast.walk(n)) for c in calls)]
+    if not calls or not loops:
+        raise AnalysisError("fuse_two_dags: phase loop with the fuse_two_phases call not found")
+    lp = loops[0]
+    it = _resolve_local(fd.node, lp.iter)
+    # expand locals inside the iterable once
+    srcs = set()
+    bad_ops = []
+    todo = [it]
+    seen = 0
+    while todo and seen < 50:
+        x = todo.pop()
+        seen += 1
+        for n in ast.walk(x):
+            if isinstance(n, ast.Attribute) and n.attr == "phases" and isinstance(n.value, ast.Name) \
+                    and n.value.id in (d1, d2):
+                srcs.add(n.value.id)
+            elif isinstance(n, ast.Name) and n is not x:
+                r = _resolve_local(fd.node, n)
+                if r is not n:
+                    todo.append(r)
+            elif isinstance(n, ast.BinOp) and isinstance(n.op, (ast.BitAnd, ast.Sub, ast.BitXor)):
+                bad_ops.append(type(n.op).__name__)
+            elif isinstance(n, ast.Call) and isinstance(n.func, ast.Attribute) \
+                    and n.func.attr in ("intersection", "difference", "symmetric_difference"):
+                bad_ops.append(n.func.attr)
+    ok = srcs == {d1, d2} and not bad_ops
+    run.ob("C16.phases", fd, lp, ok,
+           construct=f"phase loop ranges over the phase names of both {d1} and {d2} "
+                     f"(sources: {sorted(srcs)}{', narrowed by ' + ','.join(bad_ops) if bad_ops else ''})",
+           why="a phase that only one method has (a recovery or bootstrap phase) would "
+               "be dropped from the fused method; the run fails or goes wrong only "
+               "when the transition into it fires")
+    # each side looked up in its own map under the loop's phase name
+    key = None
+    if isinstance(lp.target, ast.Name):
+        key = lp.target.id
+    elif isinstance(lp.target, ast.Tuple) and lp.target.elts and isinstance(lp.target.elts[0], ast.Name):
+        key = lp.target.elts[0].id
+    c = calls[0]
+    names = fp.params
+
+    def arg(k):
+        i = names.index(k)
+        if len(c.args) > i:
+            return c.args[i]
+        return kwarg(c, k)
+
+    for k, d in ((names[1], d1), (names[2], d2)):
+        a = arg(k)
+        r = _resolve_local(lp, a) if a is not None else None
+        shape = norm(r) if r is not None else "?"
+        ok = key is not None and shape in (f"{d}.phases.get({key})", f"{d}.phases.get({key}, None)")
+        if not ok and isinstance(a, ast.Name) and isinstance(lp.target, ast.Tuple):
+            # for name, phase in sorted(<d>.phases.items()) binds that side directly -
+            # acceptable only if the loop still ranges over both maps (checked above)
+            ok = False
+        run.ob("C16.phases", fd, a if a is not None else c, ok,
+               construct=f"{k} = {d}.phases.get(<loop phase name>)  (found: {shape})",
+               why="each method contributes its own phase of that name, or None")
+    sub = [n for n in ast.walk(fd.node) if isinstance(n, ast.Assign)
+           and isinstance(n.targets[0], ast.Subscript) and n.value is c]
+    ret = [n for n in ast.walk(fd.node) if isinstance(n, ast.Return)]
+    ok = bool(sub) and key is not None and dotted(sub[0].targets[0].slice) == key \
+        and len(ret) == 1 and isinstance(ret[0].value, ast.Call) and ret[0].value.args \
+        and dotted(ret[0].value.args[0]) == dotted(sub[0].targets[0].value)
+    run.ob("C16.phases", fd, sub[0] if sub else fd.node, ok,
+           construct="result[phase name] = fuse_two_phases(...); the returned DAGCode is built from that map",
+           why="every fused phase is stored under its own name and returned")
+    # one-sided phases are returned unchanged; no path returns nothing
+    g = CFG(fp.node)
+    p1, p2 = names[1], names[2]
+    rets = [n.ast for n in g.nodes if n.kind == "stmt" and isinstance(n.ast, ast.Return)]
+    vals = {dotted(r.value) for r in rets if r.value is not None}
+    live = g.reachable([g.entry], include_start=True)
+    falls = [a for a, lab in g.pred[g.exit] if lab == "fall" and a in live]
+    ok = {p1, p2} <= vals and all(r.value is not None for r in rets) and not falls
+    run.ob("C16.phases", fp, fp.node, ok,
+           construct=f"a phase present on one side only is returned as it is "
+                     f"(returns: {sorted(v for v in vals if v)}); no path returns nothing",
+           why="dropping or emptying a one-sided phase loses that method's statements")
